@@ -95,17 +95,26 @@ inductive DstOffset (std : Int) : List Nat → Int → Prop
 
 end Gr
 
+/-- the offsets a zone may state: STRICTLY within 24 hours of UTC.  The POSIX field ranges
+(`hh = 0…24`, `mm`, `ss = 0…59`, category `Offset`) spell offsets up to `24:59:59`, and a defaulted DST
+offset can lie one hour beyond; the texts whose stated (or defaulted) offset is `24:00:00` or more in
+magnitude are syntactically well-formed but denote no rule: `Local` hands offsets out as
+`FixedOffset`, which is strictly within 24 h (repair of finding F32, `LocalTimeType::new`). -/
+def Within24h (o : Int) : Prop := -86400 < o ∧ o < 86400
+instance (o : Int) : Decidable (Within24h o) := by unfold Within24h; infer_instance
+
 open Gr in
 /-- `Denotes ext s r`: the byte string `s` is a POSIX TZ string (RFC 8536 extensions allowed iff `ext`)
-and `r` is the rule it stands for -/
+whose offsets are within 24 h of UTC (`Within24h`), and `r` is the rule it stands for -/
 inductive Denotes (ext : Bool) : List Nat → Rule → Prop
   /-- `std offset` -/
-  | fixed {s1 s2 n : List Nat} {o : Int} (pn : Name s1 n) (po : Offset s2 o) :
+  | fixed {s1 s2 n : List Nat} {o : Int} (pn : Name s1 n) (po : Offset s2 o) (ho : Within24h o) :
       Denotes ext (s1 ++ s2) (.fixed ⟨-o, false, some n⟩)
   /-- `std offset dst [offset] , start[/time] , end[/time]` -/
   | alt {s1 s2 s3 s4 s5 s6 n1 n2 : List Nat} {o1 o2 t1 t2 : Int} {d1 d2 : RuleDay}
       (pn1 : Name s1 n1) (po1 : Offset s2 o1) (pn2 : Name s3 n2) (po2 : DstOffset o1 s4 o2)
-      (pd1 : DayTime ext s5 d1 t1) (pd2 : DayTime ext s6 d2 t2) :
+      (pd1 : DayTime ext s5 d1 t1) (pd2 : DayTime ext s6 d2 t2)
+      (ho1 : Within24h o1) (ho2 : Within24h o2) :
       Denotes ext (s1 ++ (s2 ++ (s3 ++ (s4 ++ 44 :: (s5 ++ 44 :: s6)))))
         (.alt ⟨⟨-o1, false, some n1⟩, ⟨-o2, true, some n2⟩, d1, t1, d2, t2⟩)
 
